@@ -26,6 +26,9 @@ architecture arch_test_local_fn_01 of test_local_fn_01 is
   signal buffer_result_1 : std_logic_vector(7 downto 0);
   signal buffer_result_2 : std_logic_vector(7 downto 0);
   signal buffer_result_3 : std_logic_vector(7 downto 0);
+  signal temp : std_logic_vector(7 downto 0);
+  signal temp1 : std_logic_vector(7 downto 0);
+  signal temp2 : std_logic_vector(7 downto 0);
 begin
   
   -- CONCURRENT BLOCK (buffer assignment)
@@ -33,17 +36,11 @@ begin
   result_2 <= buffer_result_2;
   result_3 <= buffer_result_3;
   
-
-  logic: process(inp_a, inp_b)
-    variable temp : std_logic_vector(7 downto 0);
-    variable temp1 : std_logic_vector(7 downto 0);
-    variable temp2 : std_logic_vector(7 downto 0);
-  begin
-    temp := (inp_a) and (inp_b);
-    buffer_result_1 <= temp;
-    temp1 := (inp_a) or (inp_b);
-    buffer_result_2 <= temp1;
-    temp2 := (inp_a) xor (inp_b);
-    buffer_result_3 <= temp2;
-  end process;
+  -- CONCURRENT BLOCK (logic)
+  temp <= (inp_a) and (inp_b);
+  buffer_result_1 <= temp;
+  temp1 <= (inp_a) or (inp_b);
+  buffer_result_2 <= temp1;
+  temp2 <= (inp_a) xor (inp_b);
+  buffer_result_3 <= temp2;
 end architecture arch_test_local_fn_01;
